@@ -46,7 +46,9 @@ class _PathInsideValueError(ValueError):
 def _is_del_mark(val) -> bool:
     if isinstance(val, np.ndarray) and val.shape == ():
         val = val[()]  # scalar wrapped as 0-dim array is stored just like the scalar
-    return isinstance(val, np.void) and val.tobytes() == DEL_VALUE.tobytes()
+    if not isinstance(val, np.void) or val.dtype.names is not None:
+        return False  # (a compound value is also a np.void, but it is no opaque value)
+    return val.tobytes() == DEL_VALUE.tobytes()
 
 
 def _node_is_del_mark(node) -> bool:
@@ -55,7 +57,7 @@ def _node_is_del_mark(node) -> bool:
         # only a scalar of a single opaque byte can be the mark
         # (avoid loading each dataset just to find that out!)
         dt = node.dtype
-        if node.shape != () or dt.kind != "V" or dt.itemsize != 1:
+        if node.shape != () or dt.kind != "V" or dt.itemsize != 1 or dt.names:
             return False
         node = node[()]
     return _is_del_mark(node)
